@@ -183,9 +183,17 @@ impl Client for BlockingLoop {
             RequestBody::Empty => vec![],
             RequestBody::Fixed(b) => b.to_vec(),
             RequestBody::Streaming(mut w) => {
-                let mut out = vec![];
-                w.write_body(&mut out)?;
-                out
+                // a retrying transport: the first complete attempt is lost, the body is reset
+                // and written again (WriteBody::reset: "so that it can be written out again")
+                let mut first = vec![];
+                w.write_body(&mut first)?;
+                if w.reset() {
+                    let mut out = vec![];
+                    w.write_body(&mut out)?;
+                    out
+                } else {
+                    first
+                }
             }
         };
         self.dispatch(parts.method, parts.uri, parts.headers, bytes)
@@ -263,9 +271,15 @@ impl AsyncClient for &AsyncLoop {
             AsyncRequestBody::Empty => vec![],
             AsyncRequestBody::Fixed(b) => b.to_vec(),
             AsyncRequestBody::Streaming(mut w) => {
-                let mut out = vec![];
-                Pin::new(&mut w).write_body(Pin::new(&mut out)).await?;
-                out
+                let mut first = vec![];
+                Pin::new(&mut w).write_body(Pin::new(&mut first)).await?;
+                if Pin::new(&mut w).reset().await {
+                    let mut out = vec![];
+                    Pin::new(&mut w).write_body(Pin::new(&mut out)).await?;
+                    out
+                } else {
+                    first
+                }
             }
         };
         self.dispatch(parts.method, parts.uri, parts.headers, bytes).await
